@@ -427,6 +427,11 @@ class Open(State):
             elif has_recv_cea(self.msg):
                 self.event_open_rcv_cea()
 
+            elif has_recv_dpa(self.msg):
+                #: Nothing asked for it (no DPR is outstanding while Open):
+                #: a base-protocol answer is not the application's business.
+                open_logger.debug("Unsolicited DPA has been discarded.")
+
             else:
                 self.event_open_rcv_message()
             
